@@ -180,8 +180,19 @@ impl Ctx {
         self.tier == Tier::Quick
     }
     /// pick a work amount by tier
+    /// work size of a sub-check: `quick` in the quick tier, `thorough` x VERIF_THOROUGH_SCALE (default 3)
+    /// in the thorough tier
     pub fn n(&self, quick: u32, thorough: u32) -> u32 {
-        if self.quick() { quick } else { thorough }
+        if self.quick() {
+            quick
+        } else {
+            let scale: u32 = std::env::var("VERIF_THOROUGH_SCALE")
+                .ok()
+                .and_then(|s| s.parse().ok())
+                .unwrap_or(3)
+                .max(1);
+            thorough.saturating_mul(scale)
+        }
     }
 
     pub fn add_rule(&self, s: &str) {
